@@ -145,6 +145,17 @@ def ensureListR (j : Json) : Res Json :=
   | some xs => .ok (.arr xs)
   | none => .raise (.crash "TypeError")      -- `list(5)`; a dict would give its keys: not modelled apart
 
+/-- `a[n:]` for a list or string and an integer `n` -/
+def pySliceFrom (a n : Json) : Res Json :=
+  match asNum n with
+  | some (.int i) =>
+    let k (len : Nat) : Nat := if 0 ≤ i then i.toNat else (i + len).toNat
+    match a with
+    | .arr xs => .ok (.arr (xs.drop (k xs.length)))
+    | .str s => .ok (.str (s.drop (k s.length)))
+    | _ => .raise (.crash "TypeError")
+  | _ => .raise (.crash "TypeError")
+
 /-- evaluation of an expression -/
 def evalEx (env : Env) (cfg : Cfg) : Locals → Ex → Res Json
   | σ, .var n => lookupVar σ n
@@ -187,6 +198,7 @@ def evalEx (env : Env) (cfg : Cfg) : Locals → Ex → Res Json
       | .str ps, .str ss => (search env ps ss).bind fun m => .ok (.bool m)
       | _, _ => .raise (.crash "TypeError")
   | σ, .ensureList a => (evalEx env cfg σ a).bind ensureListR
+  | σ, .sliceFrom a n => (evalEx env cfg σ a).bind fun v => (evalEx env cfg σ n).bind fun w => pySliceFrom v w
   | σ, .all_ x it body =>
     (evalEx env cfg σ it).bind fun v => (elemsOf v).bind fun xs =>
       (allLoop (fun e => evalEx env cfg ((x, e) :: σ) body) xs).bind fun r => .ok (.bool r)
@@ -241,6 +253,13 @@ def iterItems (env : Env) (cfg : Cfg) (σ : Locals) : Iter → Res (List (List J
       (evalEx env cfg σ y).bind fun w => (elemsOf w).bind fun ys =>
         .ok (((enumFrom 0 xs).zip ys).map fun t => [jnat t.1.1, t.1.2, t.2])
 
+  | .enumerateFrom x start =>
+    (evalEx env cfg σ x).bind fun v => (elemsOf v).bind fun xs =>
+      (evalEx env cfg σ start).bind fun w =>
+        match asNum w with
+        | some (.int i) => .ok ((enumFrom 0 xs).map fun t => [Json.num (.int (i + t.1)), t.2])
+        | _ => .raise (.crash "TypeError")
+
 def bindPat : Pat → List Json → Locals → Option Locals
   | .one a, [x], σ => some ((a, x) :: σ)
   | .two a b, [x, y], σ => some ((b, y) :: (a, x) :: σ)
@@ -289,6 +308,9 @@ def tmplOf (fmt : String) : String :=
   | "%r has too many properties" => "maxProperties"
   | "%r is not allowed for %r" => "not"
   | "%r is disallowed for %r" => "disallow"
+  | "Additional items are not allowed (%s %s unexpected)" => "addItems"
+  | "%r is not valid under any of the given schemas" => "anyOf"
+  | "%r is valid under each of %s" => "oneOfMore"
   | other => "?" ++ other
 
 /-- `fmt % args` as far as `%s` with a string argument goes: the string is spliced in, `%r`
@@ -308,6 +330,15 @@ def spliceS : List Char → List Json → List Char × List Json
 def mkErr (fmt : String) (args : List Json) : Err :=
   let r := spliceS fmt.toList args
   Err.fresh (tmplOf (String.ofList r.1)) r.2
+
+/-- the error whose wording a helper of `_utils` builds: the model's template takes the helper's
+    arguments (`extras_msg(extras)`: the list of extras; `types_msg(instance, types)`: both) and the
+    harness renders it with the real helper's wording -/
+def helperErr (helper fmt : String) (args : List Json) : Err :=
+  match helper with
+  | "extras_msg" => Err.fresh (tmplOf fmt) args
+  | "types_msg" => Err.fresh "type" args
+  | other => Err.fresh ("?" ++ other) args
 
 mutual
 /-- one statement, continuation-passing: `k` receives how the statement ended -/
@@ -330,6 +361,8 @@ def exec (env : Env) (cfg : Cfg) (rec : Rec) : St → Locals → (Flow → Gen) 
         andThen (descendG (rec iv sv) p q) (k (.next σ))
   | .yieldErr fmt args, σ, k =>
     withRes (evalArgs env cfg σ args) fun vs => andThen (emit [mkErr fmt vs]) (k (.next σ))
+  | .yieldMsg helper fmt args, σ, k =>
+    withRes (evalArgs env cfg σ args) fun vs => andThen (emit [helperErr helper fmt vs]) (k (.next σ))
 
 def execList (env : Env) (cfg : Cfg) (rec : Rec) : List St → Locals → (Flow → Gen) → Gen
   | [], σ, k => k (.next σ)
